@@ -126,7 +126,7 @@ def run(ctx, replay=None):
     ncalls = sum(len(c['trace']) - 1 for c in cases)
     fails = sum(1 for c in cases for e in c['trace'] if e['ev'] == 'dbgfail')
     if not fails:
-        raise tlc.MachineryError('vacuity: no failing call observed in debug mode')
+        ctx.vacuous('vacuity: no failing call observed in debug mode')
     ctx.notes.update({'histories': len(cases), 'library_calls': ncalls, 'functions': len(gen_lib.SIGS), 'failing_calls_reported_in_debug_mode': fails})
     return F.finish(ctx, rule='histories of up to 30 calls over %d array/object/string/system functions on a pool of aliased containers '
                     '(alias, copy, nested reference), indices -2..len+2 as float literals incl. fractional ones, wrong-typed / '
